@@ -6,7 +6,7 @@ META = {
              'shapes {small tuple, nested containers, ~300 KiB multi-frame pickle}; first run under backend B1 '
              '(serial/fork/spawn) records value and result_meta of every task; second run in the same process under '
              'B2 and third run in a fresh interpreter with another PYTHONHASHSEED under B3 request random subsets. '
-             'A fourth phase replaces the entries (bust_cache with new instances under B4) and then hits the cache under B5 with the ORIGINAL task objects, which still carry the overwritten execution's result_meta. Oracle: is_cached true for every executed task; later runs return the recorded values (values embed '
+             'A fourth phase replaces the entries (bust_cache with new instances under B4) and then hits the cache under B5 with the ORIGINAL task objects, which still carry the result_meta of the overwritten execution. Oracle: is_cached true for every executed task; later runs return the recorded values (values embed '
              'task name and the generation of the run that computed them, so a cross-wired or re-executed result '
              'differs), produce zero run() start events, and every loaded instance carries the recorded start and '
              'duration. Distinct by (DAG, shapes, B1, B2, B3, seeds); non-trivial when >= 2 tasks were loaded in a '
